@@ -203,7 +203,16 @@ func oracleC01(in map[string]any, main implStatic, variants []implStatic) ([]Vio
 	}
 	// transfers (rows with from = to are the known finding D20 and not generated here)
 	tr := truthOf(in, "transfers.txt")
-	if len(s.Transfers) != len(tr.rows) {
+	var distinctRows [][]string
+	for _, row := range tr.rows {
+		if tr.get(row, "from_stop_id") != tr.get(row, "to_stop_id") {
+			distinctRows = append(distinctRows, row)
+		}
+	}
+	if len(s.Transfers) != len(tr.rows) && len(s.Transfers) == len(distinctRows) {
+		// "one entity per data row" fails exactly for the rows whose two stops coincide (finding D20)
+		l.add("transfer-same-stop-dropped", "transfers.txt has %d rows, result has %d transfers: the %d rows with from_stop_id = to_stop_id yield no Transfer", len(tr.rows), len(s.Transfers), len(tr.rows)-len(distinctRows))
+	} else if len(s.Transfers) != len(tr.rows) {
 		l.add("c01-count", "transfers.txt has %d rows, result has %d transfers", len(tr.rows), len(s.Transfers))
 	} else {
 		for i, row := range tr.rows {
